@@ -136,6 +136,9 @@ struct Stats {
   std::map<std::string, uint64_t> excluded;     // skipped because of an open known finding
   std::vector<std::string> samples;             // some non-trivial cases, serialised
   bool exhaustive = false;
+  bool partial = false;                         // set by an enumeration that covers only part of its space
+  uint64_t countedDistinct = 0;                 // distinct non-trivial cases counted exactly by an enumeration
+  std::string extraJson;                        // optional, harness specific object for the evidence
   uint64_t fpCap = 4000000;
   // per-case scratch
   bool caseNontrivial = false;
@@ -197,8 +200,10 @@ inline void flushStats(const char *status) {
   std::ostringstream o;
   o << "{\"mode\":\"" << jsonEscape(rs.mode) << "\",\"status\":\"" << status << "\",";
   o << "\"evaluations\":" << st.evaluations << ",\"nontrivial\":" << st.nontrivial
-    << ",\"distinct_nontrivial\":" << st.fingerprints.size()
+    << ",\"distinct_nontrivial\":" << (st.fingerprints.size() + st.countedDistinct)
+    << ",\"counted_distinct\":" << st.countedDistinct
     << ",\"exhaustive\":" << (st.exhaustive ? "true" : "false") << ",";
+  if (!st.extraJson.empty()) o << "\"extra\":" << st.extraJson << ",";
   o << "\"classes\":{";
   bool first = true;
   for (auto &c : st.classes) { o << (first ? "" : ",") << "\"" << jsonEscape(c.first) << "\":" << c.second; first = false; }
@@ -312,7 +317,17 @@ struct Mode : ModeBase {
     return ok ? 0 : 1;
   }
 
+  // optional: enumeration that does its own bookkeeping (huge spaces); returns 0/1, calls fail() itself
+  std::function<int(Mode<Case> &)> customEnum;
+
   int enumerate() override {
+    if (customEnum) {
+      int r = customEnum(*this);
+      if (r == 0 && !stats().partial) stats().exhaustive = true;
+      flushStats(r == 0 ? "ok" : "fail");
+      if (r) std::cout << "FAIL mode=" << name << " msg=" << runState().failMessage << "\n";
+      return r;
+    }
     if (!enumerator) return ModeBase::enumerate();
     int rcode = 0;
     enumerator([&](const Case &c) {
